@@ -44,11 +44,19 @@ class ModeDriver(MachineDriver):
         for n in MODES:
             for ev in LIFE:
                 m.events.add_handler("mode_%s_%s" % (n, ev), self._life, priority=-1000, _m=n, _e=ev)
+        m.events.add_handler("m1_delay_fired", self._delay_fired)
         self.baseline = self.registry()
         self.pending_start = {n: False for n in MODES}
         self.pending_stop = {n: False for n in MODES}
 
     # ---- observation ---------------------------------------------------------------------------
+    def _delay_fired(self, **kwargs):
+        """m1's own 1 s delay (added in mode_start): once the mode has been asked to stop it must never fire."""
+        self.stat("mode_delays_fired")
+        if self.last["m1"] not in ("starting", "started"):
+            self.violate("mode-delay-fired-after-stop", "the delay m1 added in mode_start fired while the mode's last lifecycle event is %s "
+                         "(trace %r)" % (self.last["m1"], self.trace["m1"][-6:]))
+
     def _life(self, _m, _e, queue=None, **kwargs):
         exp = NEXT[self.last[_m]]
         if _e != exp:
